@@ -103,7 +103,7 @@ FOCUS[10] = ("- THIS ROUND'S FOCUS: lifecycle and call order. At least one of yo
 
 
 def rnd_of(i):
-    m = re.search(r'-r(\d)$', i)
+    m = re.search(r'-r(\d+)$', i)
     return int(m.group(1)) if m else 1
 
 
